@@ -67,14 +67,17 @@ func (c *ValidityWindow) CaveatType() CaveatType { return CavValidityWindow }
 func (c *ValidityWindow) Name() string           { return "ValidityWindow" }
 
 func (c *ValidityWindow) Prohibits(f Access) error {
-	na := time.Unix(c.NotAfter, 0)
-	if f.Now().After(na) {
-		return fmt.Errorf("%w: token only valid until %s", ErrUnauthorized, na)
+	// compare in unix seconds: time.Unix(sec, 0) wraps around for bounds
+	// close to the int64 limits.
+	now := f.Now()
+	sec := now.Unix()
+
+	if sec > c.NotAfter || (sec == c.NotAfter && now.Nanosecond() > 0) {
+		return fmt.Errorf("%w: token only valid until %s", ErrUnauthorized, time.Unix(c.NotAfter, 0))
 	}
 
-	nb := time.Unix(c.NotBefore, 0)
-	if f.Now().Before(nb) {
-		return fmt.Errorf("%w: token not valid until %s", ErrUnauthorized, nb)
+	if sec < c.NotBefore {
+		return fmt.Errorf("%w: token not valid until %s", ErrUnauthorized, time.Unix(c.NotBefore, 0))
 	}
 
 	return nil
